@@ -58,7 +58,7 @@ func DefaultWeights() Weights {
 		"totpsetup": 3, "totpconfirm": 3, "totpremove": 1, "totpvalidate": 5, "totpgetsetup": 1,
 		"smssetup": 3, "smsconfirm": 3, "smsremove": 1, "smsvalidate": 6, "smsgetsetup": 1,
 		"regen": 1, "vstart": 2, "vend": 2, "prot": 5, "open": 1, "lockmw": 1, "confirmmw": 1, "rootmw": 1,
-		"adv": 6, "keepalive": 2, "apilock": 1, "apiunlock": 1, "updpw": 1, "setcookie": 3, "stealcookie": 2,
+		"adv": 6, "keepalive": 2, "xfactor": 2, "apilock": 1, "apiunlock": 1, "updpw": 1, "setcookie": 3, "stealcookie": 2,
 	}
 }
 
@@ -414,7 +414,7 @@ func (g *Gen) Step() {
 	case "logout":
 		args := Args{}
 		if g.R.Intn(6) == 0 {
-			args.Method = pick(g.R, []string{"GET", "POST", "DELETE"})
+			args.Method = pick(g.R, []string{"GET", "POST", "DELETE", "HEAD", "PUT"})
 		}
 		r = m.HTTP(b, "logout", args, g.fault())
 	case "ostart":
@@ -423,7 +423,14 @@ func (g *Gen) Step() {
 			args.RMVal = pick(g.R, []string{"false", "0", "no", "TRUE"})
 		}
 		if g.R.Intn(3) == 0 {
-			args.Redir = "/after-oauth"
+			args.Redir = pick(g.R, []string{"/after-oauth", "/after-oauth", "//evil.example", "/\\evil.example", "/%2Fevil.example", "/%5Cevil.example/x", "https://evil.example/"})
+			if g.R.Intn(3) == 0 {
+				// a repeated parameter: a harmless first value, the library keeps the last
+				args.RedirFirst = "/welcome"
+			}
+			if g.R.Intn(3) == 0 {
+				args.RMVal = "no" // one more pass-along parameter
+			}
 		}
 		r = m.HTTP(b, "ostart", args, g.fault())
 	case "oend":
@@ -433,6 +440,12 @@ func (g *Gen) Step() {
 		uid := pick(g.R, []string{"u1", "u;;4", "u;4", "u;;4", "u;4", "u;3", "ü5"})
 		if g.R.Intn(6) != 0 {
 			m.W.OAuth[code] = map[string]string{"uid": uid}
+		}
+		if m.W.B(b).Sess["oauth2_state"] == "" && g.R.Intn(2) == 0 {
+			m.HTTP(b, "ostart", Args{Prov: prov, RM: g.R.Intn(4) == 0}, nil) // a complete round trip
+		}
+		if pid := "oauth2;;" + prov + ";;" + uid; g.R.Intn(4) == 0 && m.Cfg.Has("lock") && m.W.Store.Users[pid] != nil {
+			m.APILock(pid) // a returning OAuth2 user whose account has been locked meanwhile
 		}
 		args := Args{Prov: prov, OCode: code}
 		switch x := g.R.Intn(10); {
@@ -569,9 +582,47 @@ func (g *Gen) Step() {
 		} else {
 			m.Advance(gaps[g.R.Intn(len(gaps))])
 		}
+	case "xfactor":
+		// cross-account / cross-factor confusion in one browser: start a login for one account, then for
+		// another, then answer the second factor with what was obtained for the first
+		a2 := g.acct()
+		m.HTTP(b, "login", Args{PID: a.PID, PW: a.PW}, nil)
+		if g.R.Intn(3) == 0 {
+			m.Advance(11 * time.Second) // past the SMS resend limit
+		}
+		m.HTTP(b, "login", Args{PID: a2.PID, PW: a2.PW}, nil)
+		sess := m.W.B(b).Sess
+		switch g.R.Intn(4) {
+		case 0:
+			r = m.HTTP(b, "smsvalidate", Args{Code: sess["sms_secret"]}, nil)
+		case 1:
+			if u := m.W.Store.Users[a.PID]; u != nil && u.TOTPSecretKey != "" {
+				r = m.HTTP(b, "totpvalidate", Args{Code: TOTPCode(u.TOTPSecretKey)}, nil)
+			}
+		case 2:
+			if len(a.RecCodes) > 0 {
+				r = m.HTTP(b, pick(g.R, []string{"smsvalidate", "totpvalidate"}), Args{RCode: pick(g.R, a.RecCodes)}, nil)
+			}
+		default:
+			if u := m.W.Store.Users[a2.PID]; u != nil && u.TOTPSecretKey != "" {
+				r = m.HTTP(b, "smsvalidate", Args{Code: TOTPCode(u.TOTPSecretKey)}, nil)
+			}
+		}
 	case "apilock":
-		if m.W.Store.Users[a.PID] != nil && m.Cfg.Has("lock") {
-			m.APILock(a.PID)
+		pid := a.PID
+		if g.R.Intn(3) == 0 {
+			// any stored account, including the ones OAuth2 logins created
+			var pids []string
+			for p := range m.W.Store.Users {
+				pids = append(pids, p)
+			}
+			sortStrings(pids)
+			if len(pids) > 0 {
+				pid = pids[g.R.Intn(len(pids))]
+			}
+		}
+		if m.W.Store.Users[pid] != nil && m.Cfg.Has("lock") {
+			m.APILock(pid)
 		}
 	case "apiunlock":
 		if m.W.Store.Users[a.PID] != nil && m.Cfg.Has("lock") {
